@@ -1625,6 +1625,46 @@ pub fn main(args: &util::Args) {
             }
         }
     }
+    // ---- the REAL corpus: every top-level function of package Main of every corpus program, through the same observer
+    for (k, dir) in util::corpus_pipeline_dirs().iter().enumerate() {
+        let path = dir.join("main.gom");
+        let Ok(src) = std::fs::read_to_string(&path) else { continue };
+        let col: Rc<RefCell<Vec<FnRec>>> = Rc::new(RefCell::new(Vec::new()));
+        let col2 = col.clone();
+        compiler::typer::verif_set_fn_observer(Some(Box::new(move |genv: &PackageTypeEnv, typer: &mut Typer, diags: &Diagnostics, f: &hir::Fn, phase: u8| {
+            observe(&col2, genv, typer, diags, f, phase)
+        })));
+        let r = catch_unwind(AssertUnwindSafe(|| compiler::pipeline::pipeline::typecheck_with_packages_and_results(&path, &src)));
+        compiler::typer::verif_set_fn_observer(None);
+        let (fin, verdict) = match r {
+            Ok(Ok((_table, results, _genv, diags))) => {
+                let rejected = diags.iter().any(|d| d.severity() == diagnostics::Severity::Error);
+                (Some(results), if rejected { "typer" } else { "accepted" })
+            }
+            Ok(Err(_)) => (None, "error"),
+            Err(_) => (None, "panic"),
+        };
+        let name = dir.file_name().map(|x| x.to_string_lossy().to_string()).unwrap_or_default();
+        out.push_str(&format!("K{}\tPROG\t{}\t{}\tcorpus\t\n", k, esc_line(&format!("corpus program {} ({})", name, path.display())), verdict));
+        cov.inc("corpus_programs");
+        let recs = col.borrow();
+        for rec in recs.iter() {
+            let id = format!("K{}.{}", k, rec.name);
+            cov.inc("corpus_functions");
+            if let Some(kind) = &rec.skip {
+                out.push_str(&format!("{}\tSKIP\t{}\n", id, kind));
+                cov.inc("corpus_functions_outside");
+                cov.inc(&format!("corpus_outside_{}", kind.replace('-', "_")));
+                continue;
+            }
+            let Some(input) = &rec.input else { continue };
+            if rec.phase != 2 {
+                continue;
+            }
+            out.push_str(&format!("{}\tINF\t{}\t{}\n", id, input.to_text(), result_s(rec, fin.as_ref()).to_text()));
+            cov.inc("corpus_functions_inside");
+        }
+    }
     let _ = std::fs::remove_dir_all(&scratch);
     let covrow: Vec<String> = cov.m.iter().map(|(k, v)| format!("{}={}", k, v)).collect();
     out.push_str(&format!("#COV\t{}\n", covrow.join(";")));
